@@ -78,6 +78,14 @@ func HandleInvite(ctx context.Context, input HandleInviteInput) (PDU, error) {
 		return nil, spec.BadJSON("The room ID in the request path must match the room ID in the invite event JSON")
 	}
 
+	// Check that the event really is an invite: we are about to add our signature to it.
+	if input.InviteEvent.Type() != spec.MRoomMember || input.InviteEvent.StateKey() == nil {
+		return nil, spec.BadJSON("The invite event must be an m.room.member state event")
+	}
+	if membership, merr := input.InviteEvent.Membership(); merr != nil || membership != spec.Invite {
+		return nil, spec.BadJSON("The invite event must have membership \"invite\"")
+	}
+
 	// Check that the event is signed by the server sending the request.
 	redacted, err := verImpl.RedactEventJSON(input.InviteEvent.JSON())
 	if err != nil {
